@@ -112,10 +112,27 @@ def e_Lambda(self, n, st):
 
 def e_Yield(self, n, st):
     fr = self.frames[-1]
-    v = self.eval(n.value, st) if n.value is not None else Const(None)
+    if isinstance(n.value, ast.BinOp) and isinstance(n.value.op, ast.Mult):
+        # frequency axes are written  index * df : keep the exact index for the axis rules
+        a = self.eval(n.value.left, st)
+        b = self.eval(n.value.right, st)
+        exs = []
+        for x in (a, b):
+            nx = tonum(x) if not isinstance(x, (Tup, SeqV, TopV)) else None
+            if nx is not None and nx.ex is not None:
+                exs.append(nx.ex)
+        self.events.append(('axis-index', exs[0] if len(exs) == 1 else None))
+        v = self.binop(n.value.op, a, b, n.value)
+    else:
+        v = self.eval(n.value, st) if n.value is not None else Const(None)
     if fr.yields is None:
         fr.yields = []
+        fr.ycounts = {}
     fr.yields.append(v.with_taint(self.pc) if self.pc else v)
+    cnt = Aff(1)
+    for ln in fr.loopn:
+        cnt = cnt.mul(ln) if (cnt is not None and ln is not None) else None
+    fr.ycounts[id(n)] = cnt
     return Const(None)
 
 
@@ -490,10 +507,68 @@ def binop(self, op, va, vb, node):
     return TopV('binop')
 
 
+def _rational_const(v):
+    """exact rational value of a constant scalar operand, else None"""
+    if isinstance(v, Const) and isinstance(v.v, (int, float)) and not isinstance(v.v, bool):
+        a = aff(v.v)
+        return a.c if a is not None else None
+    if isinstance(v, Num) and v.shape == () and v.ex is not None and v.ex.is_const() and v.seg is None:
+        return v.ex.c
+    return None
+
+
+def seg_structure(segs):
+    from . import segmap
+    return [(repr(x.n), repr(x.start), x.stride if x.n != Aff(1) else 0) for x in segmap.normalise(segs)]
+
+
+def relabel(segs):
+    from . import segmap
+    return [segmap.Seg(x.n, '*', x.start, x.stride, 1) for x in segs]
+
+
+def elementwise_seg(op, va, vb, r):
+    """index map of an elementwise result"""
+    from . import segmap
+    if not isinstance(r, Num):
+        return
+    sa = va.seg if isinstance(va, Num) else None
+    sb = vb.seg if isinstance(vb, Num) else None
+    if sa is None and sb is None:
+        return
+    if sa is not None and sb is not None:
+        a_arr, b_arr = va.is_array, vb.is_array
+        if a_arr and b_arr:
+            if seg_structure(sa) == seg_structure(sb):
+                r.seg = relabel(segmap.normalise(sa))
+            return
+        # array (op) scalar element of a map: derived values
+        r.seg = relabel(sa if a_arr else sb) if (a_arr or b_arr) else None
+        return
+    segv, other, seg = (va, vb, sa) if sa is not None else (vb, va, sb)
+    on = tonum(other) if not isinstance(other, (Tup, SeqV)) else None
+    if on is None:
+        return
+    if on.is_array and not on.zero:
+        return
+    if on.zero and on.is_array and isinstance(op, (ast.Add, ast.Sub)):
+        r.seg = relabel(seg) if isinstance(op, ast.Sub) and segv is vb else list(seg)
+        return
+    k = _rational_const(other)
+    if k is not None and isinstance(op, ast.Mult):
+        r.seg = segmap.scale(seg, k)
+    elif k is not None and k != 0 and isinstance(op, (ast.Div,)) and segv is va:
+        r.seg = segmap.scale(seg, 1 / k)
+    else:
+        r.seg = relabel(seg)
+
+
 def e_BinOp(self, n, st):
     a = self.eval(n.left, st)
     b = self.eval(n.right, st)
-    return self.binop(n.op, a, b, n)
+    r = self.binop(n.op, a, b, n)
+    elementwise_seg(n.op, a, b, r)
+    return r
 
 
 # ----------------------------------------------------------------------------- comparisons
@@ -703,6 +778,8 @@ def attr_of(self, v, attr, st, n):
                         self.conflict('phase', c, '.%s of a value that carries a phase (exponent %s): not covariant' %
                                       (attr, nv.deg[c]), n)
                         r.deg[c] = TOP
+            if attr == 'real' and isinstance(v, Num) and v.seg is not None:
+                r.seg = relabel(v.seg) if v.cplx is not False else list(v.seg)
             if attr == 'imag':
                 r.nonneg = False
                 if nv.cplx is False:
@@ -723,7 +800,10 @@ def attr_of(self, v, attr, st, n):
         if attr == 'ndim':
             return Const(len(nv.shape)) if nv.shape is not None else IntV(None)
         if attr == 'T':
-            return nv.copy(shape=tuple(reversed(nv.shape)) if nv.shape is not None else None)
+            r = nv.copy(shape=tuple(reversed(nv.shape)) if nv.shape is not None else None)
+            if isinstance(v, Num) and v.seg is not None and nv.shape is not None and len(nv.shape) == 1:
+                r.seg = list(v.seg)
+            return r
         if attr == 'dtype':
             return Opaque('dtype:' + {True: 'complex', False: 'float', None: '?'}[nv.cplx])
         if attr == 'flat':
@@ -1049,6 +1129,26 @@ def index_value(self, v, idx, node):
         out.extend(shape[ax:])
         r = nv.copy(shape=tuple(out), taint=t)
         r.ex = None
+        if nv.seg is not None and len(shape) == 1 and len(idxs) == 1:
+            from . import segmap
+            ix = idxs[0]
+            if isinstance(ix, SliceV):
+                def b(x):
+                    if x is None:
+                        return None
+                    from .prims import _int_aff
+                    return _int_aff(x)
+                lo, hi, stp = b(ix.lo), b(ix.hi), b(ix.step)
+                ok = (ix.lo is None or lo is not None) and (ix.hi is None or hi is not None) and \
+                    (ix.step is None or (stp is not None and stp.is_const() and int(stp.c) in (1, -1)))
+                if ok:
+                    r.seg = segmap.slice_(nv.seg, lo, hi, None if ix.step is None else int(stp.c))
+                    if r.seg is not None:
+                        r.shape = (segmap.length(r.seg),)
+            else:
+                ia = _asint(ix)
+                if ia is not None and ia.a is not None:
+                    r.seg = segmap.getitem(nv.seg, ia.a)
         return r
     if isinstance(v, Opaque):
         return TopV('subscript of opaque', taint_of(v))
